@@ -75,7 +75,7 @@ pub struct Viol {
 // Generators
 // ---------------------------------------------------------------------------------------
 
-const KEYS: &[&str] = &["a", "b", "k", "x1", "iffy", "nullable", "value_1", "value_2", "my key", "", "ключ", "Z_9", "android", "outputs"];
+const KEYS: &[&str] = &["a", "b", "k", "x1", "iffy", "nullable", "value_1", "value_2", "my key", "", "ключ", "Z_9", "android", "outputs", "inputs", "value_3", "p", "q"];
 
 fn gen_jv(rng: &mut Rng, depth: u32) -> JV {
     match rng.below(if depth >= 2 { 5 } else { 7 }) {
@@ -98,7 +98,14 @@ fn gen_jv(rng: &mut Rng, depth: u32) -> JV {
 
 fn render_doc(rng: &mut Rng, v: &JV) -> String {
     let base = v.to_json();
-    match rng.below(5) {
+    match rng.below(6) {
+        5 => {
+            // pretty-printed over several lines
+            match serde_json::from_str::<serde_json::Value>(&base) {
+                Ok(v) => serde_json::to_string_pretty(&v).unwrap_or(base),
+                Err(_) => base,
+            }
+        }
         0 => format!("  {}\n", base),
         1 => format!("{}\n", base),
         2 => {
